@@ -362,6 +362,35 @@ class Executor(object):
         load = _as_load(node.target)
         for s2, rhs in self.eval_forking(node.value, st):
             cur = self.eval(load, s2)
+            # mutable containers are updated IN PLACE by Python (s -= t,
+            # l += m, d |= e): every alias of the object sees the change
+            opn = type(node.op).__name__
+            if hasattr(cur, 'vc_iop'):
+                cur.vc_iop(opn, rhs, self, s2, node)
+                out.append((s2, None))
+                continue
+            if isinstance(cur, set) and opn in ('Sub', 'BitOr', 'BitAnd',
+                                                'BitXor'):
+                v = self.binop(node.op, set(cur), rhs, s2, node)
+                if not isinstance(v, (set, frozenset)):
+                    raise VCError('in-place set operator with a symbolic '
+                                  'operand at %s' % self.where(node))
+                cur.clear()
+                cur.update(v)
+                out.append((s2, None))
+                continue
+            if isinstance(cur, list) and opn == 'Add':
+                if not isinstance(rhs, (list, tuple)):
+                    raise VCError('list += non-sequence at %s' %
+                                  self.where(node))
+                cur.extend(rhs)
+                out.append((s2, None))
+                continue
+            if isinstance(cur, dict) and opn == 'BitOr' and \
+                    isinstance(rhs, dict):
+                cur.update(rhs)
+                out.append((s2, None))
+                continue
             v = self.binop(node.op, cur, rhs, s2, node)
             self.assign(node.target, v, s2)
             out.append((s2, None))
@@ -453,7 +482,7 @@ class Executor(object):
     def stmt_If(self, node, st):
         out = []
         for s1, c in self.eval_forking(node.test, st):
-            c = S.simp(S.to_bool(c))
+            c = S.simp(self.truthy(c, s1, node))
             if c is True or c is False:
                 out.extend(self.exec_block(node.body if c else node.orelse,
                                            s1))
@@ -609,7 +638,7 @@ class Executor(object):
                 raise VCError('while loop at %s needs an invariant' %
                               self.where(node))
             for s2, c in self.eval_forking(node.test, s1):
-                c = S.simp(S.to_bool(c))
+                c = S.simp(self.truthy(c, s2, node))
                 branches = []
                 if c is True:
                     branches = [(s2, True)]
@@ -1261,6 +1290,23 @@ class Executor(object):
         raise VCError('attribute %s of %r at %s' % (a, type(base).__name__,
                                                     self.where(node)))
 
+    def truthy(self, v, st, node):
+        """Python truth value.  An instance of a class that defines __bool__
+        or __len__ is tested through that method (an empty container-like
+        object is falsy), not by identity."""
+        if isinstance(v, SymObject) and getattr(v, 'cls', None) is not None:
+            for nm in ('__bool__', '__len__'):
+                try:
+                    r = self.find_method(v, nm)
+                except VCError:
+                    r = None
+                if r is not None:
+                    res = self.inline_call(r[0], r[2], [v], {}, st, node)
+                    return S.to_bool(res)
+        if hasattr(v, 'vc_truth'):
+            return v.vc_truth(self, st, node)
+        return S.to_bool(v)
+
     def find_method(self, obj, name):
         """Method lookup: explicit obj.mro [(ModuleInfo, ClassDef)...] when
         the contract supplies one (Cython classes spread over files), a
@@ -1371,6 +1417,8 @@ class Executor(object):
         if isinstance(node.op, ast.UAdd):
             return v
         if isinstance(node.op, ast.Not):
+            if isinstance(v, SymObject) or hasattr(v, 'vc_truth'):
+                return S.b_not(self.truthy(v, st, node))
             return S.b_not(v)
         raise VCError('unary op')
 
@@ -1486,7 +1534,7 @@ class Executor(object):
         try:
             for e in node.values:
                 v = self.eval(e, st)
-                vb = S.to_bool(v)
+                vb = self.truthy(v, st, node)
                 if isinstance(node.op, ast.And):
                     if vb is False:
                         return False if vals else v
@@ -1570,7 +1618,7 @@ class Executor(object):
         raise VCError('comparison op')
 
     def expr_IfExp(self, node, st):
-        c = S.simp(S.to_bool(self.eval(node.test, st)))
+        c = S.simp(self.truthy(self.eval(node.test, st), st, node))
         if c is True:
             return self.eval(node.body, st)
         if c is False:
